@@ -87,7 +87,8 @@ inductive Outcome
   | unknown                 -- none of its non-temporary files exists: the loader does not see the fraction
   | cleaned                 -- a `.del` file exists: `removeFractionFiles`, the fraction is gone
   | skipped                 -- neither .docs nor .sdocs: error logged, nothing loaded, files stay
-  | fatal                   -- docs without .meta and .index: `logger.Fatal`, the store does not start
+  | orphan                  -- .docs/.sdocs without .meta and .index: the last rule of `filterInfos` (`logger.Fatal`, or - after the
+                            --   repair - `removeFractionFiles`); which of the two is the extracted fact `orphanFatal`
   | sealed (src : Suffix)   -- `loadSealedFrac`; documents will be read from `src` (`Sealed.openDocs`: .docs first, then .sdocs)
   | active                  -- `NewActive` + `Replay` of .docs/.meta
   deriving DecidableEq, Repr
@@ -97,21 +98,22 @@ def classifyInfo (i : Info) : Outcome :=
   if !i.known then .unknown
   else if i.hasDocsDel || i.hasIndexDel || i.hasSdocsDel then .cleaned
   else if !i.hasDocs && !i.hasSdocs then .skipped
-  else if !(i.hasMeta || i.hasIndex) then .fatal
+  else if !(i.hasMeta || i.hasIndex) then .orphan
   else if i.hasSdocs && i.hasIndex then .sealed .sdocs     -- .meta and .docs are removed first, so `openDocs` falls through to .sdocs
   else if i.hasMeta then .active
   else .sealed (if i.hasDocs then .docs else .sdocs)
 
 def classify (fs : FileSet) : Outcome := classifyInfo (makeInfo fs)
 
-/-- the files the loader leaves behind -/
-def loadEffect (fs : FileSet) : FileSet :=
+/-- the files the loader leaves behind; `orphanFatal` = the last rule of `filterInfos` is `logger.Fatal` -/
+def loadEffect (orphanFatal : Bool) (fs : FileSet) : FileSet :=
   match classify fs with
   | .cleaned => removeFractionFiles fs
+  | .orphan => if orphanFatal then fs else removeFractionFiles fs
   | .sealed .sdocs => { fs with metaF := .absent, docs := .absent }   -- `if info.hasMeta {removeFile}`, `if info.hasDocs {removeFile}`
   | _ => fs
 
-def load (fs : FileSet) : Outcome × FileSet := (classify fs, loadEffect fs)
+def load (orphanFatal : Bool) (fs : FileSet) : Outcome × FileSet := (classify fs, loadEffect orphanFatal fs)
 
 /-- what the store holds for the fraction once `FracManager.Load` returned -/
 inductive Loaded
@@ -124,12 +126,12 @@ inductive Loaded
 /-- `load` with the parts that depend on contents: `NewActive` creates a missing `.docs`; a replayed active
 fraction with no documents (empty `.meta`) is removed again (`removeFractionFiles`); `NewSealed` reads the header
 block of the index (no `.frac-cache` entry) and dies on an empty index file. -/
-def startup (fs : FileSet) : Loaded × FileSet :=
+def startup (orphanFatal : Bool) (fs : FileSet) : Loaded × FileSet :=
   match classify fs with
   | .unknown | .skipped => (.none, fs)
   | .cleaned => (.none, removeFractionFiles fs)
-  | .fatal => (.down, fs)
-  | .sealed _ => (if fs.index = .empty then .down else .sealed, loadEffect fs)
+  | .orphan => if orphanFatal then (.down, fs) else (.none, removeFractionFiles fs)
+  | .sealed _ => (if fs.index = .empty then .down else .sealed, loadEffect orphanFatal fs)
   | .active =>
     let fs' := { fs with docs := if fs.docs = .absent then .empty else fs.docs }
     if fs.metaF = .empty then (.none, removeFractionFiles fs') else (.active, fs')
@@ -144,10 +146,10 @@ inductive Served
 
 /-- A sealed fraction serves everything iff its index and its documents file are complete.  An active fraction
 serves what .docs/.meta hold. -/
-def served (fs : FileSet) : Served :=
+def served (orphanFatal : Bool) (fs : FileSet) : Served :=
   match classify fs with
   | .unknown | .cleaned | .skipped => .none
-  | .fatal => .down
+  | .orphan => if orphanFatal then .down else .none
   | .sealed src => if fs.index = .full ∧ fs.get src = .full then .all else if fs.index = .empty then .down else .part
   | .active => if fs.docs = .full ∧ fs.metaF = .full then .all else if fs.metaF = .empty then .none else .part
 
@@ -160,7 +162,7 @@ theorem classify_sealed_src (fs : FileSet) (src : Suffix) (h : classify fs = .se
   repeat' split at h
   all_goals simp_all
 
-theorem served_tmp (fs : FileSet) (a b : Content) : served { fs with sdocsTmp := a, indexTmp := b } = served fs := by
+theorem served_tmp (o : Bool) (fs : FileSet) (a b : Content) : served o { fs with sdocsTmp := a, indexTmp := b } = served o fs := by
   unfold served
   simp only [classify_tmp]
   cases h : classify fs <;> try rfl
